@@ -131,3 +131,21 @@ Definition as_titer (s : it) : Model.Collect.titer val := Model.Collect.TI (fst 
 Definition res_item (v : val) : val + unit := match v with VErr => inr tt | _ => inl v end.
 Definition as_try_titer (s : it) : Model.Collect.titer (val + unit) :=
   Model.Collect.TI (fst (size_hint s)) (map res_item (drain s)).
+
+(* ---- 4. MapValidBasic::drop_none (tea-map/src/valid_iter.rs): `self.filter(T::not_none)` ----------------
+   The receiver is a TrustedLen iterator (a state of Model/Iter.v); the result is `impl Iterator` - a bare std
+   Filter, NOT a TrustedLen: next() = inner.find(not_none), size_hint() = (0, inner upper).  It is the
+   FFilterMap node with the predicate-as-filter_map `keep_valid` (`filter(p)` = `filter_map(|v| p(&v).then_some(v))`),
+   with nothing on top.                                                                                   *)
+Definition drop_none (s : it) : itf := FFilterMap keep_valid s.
+
+(* what is left of the SOURCE after one next() of the filter: everything behind the first non-null item
+   (nothing when there is none: the filter ran the source dry looking for one) *)
+Fixpoint after_first_valid (xs : list val) : list val :=
+  match xs with
+  | [] => []
+  | x :: r => if not_none x then r else after_first_valid r
+  end.
+(* ... after k calls *)
+Fixpoint after_valid (k : nat) (xs : list val) : list val :=
+  match k with 0 => xs | S k' => after_valid k' (after_first_valid xs) end.
